@@ -105,9 +105,16 @@ def class_guards(tree, spec, fn) -> str:
 
 
 def assign_rhs(tree, spec, fn) -> str:
+    """target: a local name or an attribute text such as "self.omega"; fn["nth"] (optional) picks the nth assignment in
+    source order when the function assigns the target more than once (e.g. in the two branches of an if)"""
     node = find_function(tree, fn["py"])
     hits = [s for s in ast.walk(node) if isinstance(s, ast.Assign) and len(s.targets) == 1
-            and isinstance(s.targets[0], ast.Name) and s.targets[0].id == fn["target"]]
+            and isinstance(s.targets[0], (ast.Name, ast.Attribute)) and src(s.targets[0]) == fn["target"]]
+    hits.sort(key=lambda s: (s.lineno, s.col_offset))
+    if "nth" in fn:
+        if not 0 <= fn["nth"] < len(hits) or len(hits) != fn.get("of", len(hits)):
+            raise Unsupported(f"{fn['py']}: {len(hits)} assignments to {fn['target']} (expected {fn.get('of')})")
+        hits = [hits[fn["nth"]]]
     if len(hits) != 1:
         raise Unsupported(f"{fn['py']}: {len(hits)} assignments to {fn['target']}")
     ctx = Ctx(spec, fn)
